@@ -645,6 +645,11 @@ func (s *Server) handleRequest(req *dhcpv4.DHCPv4) (*dhcpv4.DHCPv4, error) {
 		} else if !pool.Contains(requestedIP) {
 			atomic.AddUint64(&s.naksTotal, 1)
 			return s.buildNAK(req, "IP not in pool")
+		} else if !s.requestedIPBelongsToClient(pool, mac, requestedIP) {
+			// Inside the pool is not enough: the address may be the gateway,
+			// leased or offered to another client, or never handed out at all
+			atomic.AddUint64(&s.naksTotal, 1)
+			return s.buildNAK(req, "IP not offered to this client")
 		}
 	}
 
@@ -858,6 +863,21 @@ func (s *Server) handleRequest(req *dhcpv4.DHCPv4) (*dhcpv4.DHCPv4, error) {
 
 	atomic.AddUint64(&s.acksTotal, 1)
 	return resp, nil
+}
+
+// requestedIPBelongsToClient reports whether a new session may be acknowledged
+// for requestedIP: it must be the address the local pool holds for this client
+// (the one offered in DISCOVER), or the address Nexus allocated to it.
+func (s *Server) requestedIPBelongsToClient(pool *Pool, mac net.HardwareAddr, requestedIP net.IP) bool {
+	if held := pool.AllocatedTo(mac); held != nil {
+		return held.Equal(requestedIP)
+	}
+	if s.nexusClient != nil {
+		if sub, ok := s.nexusClient.GetSubscriberByMAC(mac.String()); ok && sub.IPv4Addr != "" {
+			return net.ParseIP(sub.IPv4Addr).Equal(requestedIP)
+		}
+	}
+	return false
 }
 
 // handleRelease handles DHCP RELEASE
